@@ -1,9 +1,7 @@
 package text
 
 import (
-	"bufio"
 	"bytes"
-	"strings"
 	"unicode"
 	"unicode/utf8"
 
@@ -44,14 +42,13 @@ func (t *Text) Draw(ctx vxfw.DrawContext) (vxfw.Surface, error) {
 	s := vxfw.NewSurface(size.Width, size.Height, t)
 	s.Fill(t.Style)
 
-	scanner := bufio.NewScanner(strings.NewReader(t.Content))
 	var row uint16
-	for scanner.Scan() {
+	for _, line := range hardLines(t.Content) {
 		var col uint16
 		if row >= ctx.Max.Height {
 			return s, nil
 		}
-		chars := ctx.Characters(scanner.Text())
+		chars := ctx.Characters(line)
 		// The line is only truncated when it doesn't fit
 		var lineWidth int
 		for _, char := range chars {
@@ -147,13 +144,12 @@ func (t *Text) findContainerSize(ctx vxfw.DrawContext) vxfw.Size {
 		}
 		return size
 	}
-	scanner := bufio.NewScanner(strings.NewReader(t.Content))
-	for scanner.Scan() {
+	for _, line := range hardLines(t.Content) {
 		if size.Height >= ctx.Max.Height {
 			return size
 		}
 		size.Height += 1
-		chars := ctx.Characters(scanner.Text())
+		chars := ctx.Characters(line)
 		var w uint16
 		for _, char := range chars {
 			w += uint16(char.Width)
@@ -168,6 +164,30 @@ func (t *Text) findContainerSize(ctx vxfw.DrawContext) vxfw.Size {
 	}
 
 	return size
+}
+
+// hardLines returns the lines of a text which is not softwrapped: s split at
+// its hard line breaks (the same breaks which end a line when softwrapping,
+// and at which RichText splits). The break is not part of the line; a
+// trailing break doesn't start another line
+func hardLines(s string) []string {
+	var lines []string
+	var cluster string
+	rest, state := s, -1
+	// start of the current line, and our position, as byte offsets into s
+	start, pos := 0, 0
+	for len(rest) > 0 {
+		cluster, rest, _, state = uniseg.FirstGraphemeClusterInString(rest, state)
+		if uniseg.HasTrailingLineBreakInString(cluster) {
+			lines = append(lines, s[start:pos])
+			start = pos + len(cluster)
+		}
+		pos += len(cluster)
+	}
+	if start < len(s) {
+		lines = append(lines, s[start:])
+	}
+	return lines
 }
 
 type SoftwrapScanner struct {
